@@ -170,8 +170,11 @@ class Ctx:
             "rule": "one evaluation = one decided obligation (rule instance on a named construct of /repo's "
             "current source); distinct_nontrivial = number of distinct (rule, construct) pairs, each of which "
             "has a non-vacuous obligation (vacuous instances are not recorded)",
-            "obligations": examined,
+            # instances listed in known_findings.json are genuine defects of the library, reported on every run as KNOWN-FINDING:
+            # they are not part of what this run claims to have established, so they are counted apart from the obligations
+            "obligations": examined - len(listed),
             "discharged": held,
+            "known_finding_instances": len(listed),
             "checker_cmd": checker_cmd,
             "trusted_base": self.trusted_base
             or ["python ast/inspect", "verifstat engines (see DESIGN.md section 2)"],
